@@ -114,6 +114,15 @@ static inline bool apply_byte_fault(std::vector<uint8_t>& b, const std::string& 
 }
 
 // add q to the 48-byte big-endian coordinate at off (flag bits of that byte preserved); false if it does not fit in 381 bits
+// Byzantine substitution "point of an isomorphic curve": (x, y) -> (u^2 x, u^3 y) lies on y^2 = x^3 + u^6 b, not on the curve,
+// but the group-law formulas never use b, so it is still killed by r: only the curve-equation check can reject it.
+// Uncompressed encodings only (the compressed form recomputes y from the curve equation).
+static inline bool iso_scale_uncompressed(std::vector<uint8_t>& e, uint64_t u) {
+    if (e.size() % 96 != 0 || e.empty() || (e[0] & 0xE0)) return false;
+    size_t half = e.size() / 2; Bn U(u), u2 = Bn::mulmod(U, U, K().q), u3 = Bn::mulmod(u2, U, K().q);
+    for (size_t i = 0; i < e.size(); i += 48) { Bn v = Bn::from_be(&e[i], 48); v = Bn::mulmod(v, i < half ? u2 : u3, K().q); v.to_be(&e[i], 48); }
+    return true;
+}
 static inline bool add_q_at(std::vector<uint8_t>& b, size_t off) {
     if (off + 48 > b.size()) return false;
     uint8_t flags = b[off] & 0xE0; uint8_t tmp[48]; memcpy(tmp, &b[off], 48); tmp[0] &= 0x1F;
